@@ -16,6 +16,9 @@ func Parser() *RDP {
 }
 
 func (p *RDP) Unmarshal(b []byte) (map[string]interface{}, error) {
+	// editors on windows (and mstsc) put a byte order mark in front of utf-8 text: it is
+	// not part of the first line
+	b = bytes.TrimPrefix(b, []byte("\xef\xbb\xbf"))
 	r := bytes.NewReader(b)
 	scanner := bufio.NewScanner(r)
 	mp := make(map[string]interface{})
